@@ -43,6 +43,9 @@ pub fn dispatch(id: &str, a: &[Arg]) -> Option<String> {
     if let Some(r) = crate::hand_ranktests::answer(id, a) {
         return Some(r);
     }
+    if id.starts_with("vec::") {
+        return crate::hand_vec::dispatch(id, a);
+    }
     if id.starts_with("mv::") {
         return crate::hand_mv::dispatch(id, a);
     }
@@ -186,6 +189,10 @@ pub fn gen(suite: &str, tier: &str, seed: u64) {
     let emit = |id: &str, a: &[Arg]| println!("{} {}", id, a.iter().map(|x| x.render()).collect::<Vec<_>>().join(" "));
     if suite == "multivariate" {
         crate::hand_mv::gen(tier, seed);
+        return;
+    }
+    if suite == "vsamplers" {
+        crate::hand_vec::gen(tier, seed);
         return;
     }
     if suite == "ranktests" {
